@@ -126,6 +126,14 @@ func (t *Tester) run(testFile string) (*TestResult, error) {
 	timeoutChan := time.After(time.Duration(timeout) * time.Minute)
 
 	go func(vcl *ast.VCL) {
+		// Interpreter may panic by unexpected VCL, then report it as an error of this test file
+		// instead of killing whole testing process
+		defer func() {
+			if r := recover(); r != nil {
+				errChan <- errors.Errorf("Panic occurred on running %s: %v", testFile, r)
+			}
+		}()
+
 		// Factory definitions in the test file
 		defs := t.factoryDefinitions(vcl)
 		var cases []*TestCase
